@@ -206,7 +206,17 @@ def lemire_cases(q, precision):
             elif not carry and found_plain < 3:
                 found_plain += 1
                 out.append((w, 'mul2'))
-    # solve for first_hi low bits all ones directly as well: w*thi = X (mod 2^(64+bits)) window
+    # when the mask is wide (f32: 38 bits) a scan never hits it: solve  w * thi mod 2^(64+bits)  in
+    # [2^(64+bits) - 2^64, 2^(64+bits))  for 64-bit normalised w with the two-dimensional lattice
+    bits = 64 - precision
+    if bits > 20:
+        Mod = 1 << (64 + bits)
+        target = Mod - (1 << 63)
+        for dist, w in cvp_candidates(thi, Mod, target, 1 << 63, 1 << 64, 1)[:12]:
+            first = w * thi
+            fhi, flo = first >> 64, first & (M64 - 1)
+            if fhi & mask == mask:
+                out.append((w, 'mul2'))
     return out
 
 
